@@ -1601,7 +1601,9 @@ class ExtraAttrs:
 
     def write(self, data: WriteBuffer) -> None:
         write_tag(data, EXTRA_ATTRS)
-        write_type_map(data, self.attrs)
+        # The order of attrs carries no meaning and the JSON format stores them as an object with sorted
+        # keys: write them sorted so that both formats (and fresh vs reloaded trees) agree byte for byte.
+        write_type_map(data, {key: self.attrs[key] for key in sorted(self.attrs)})
         write_str_list(data, sorted(self.immutable))
         write_str_opt(data, self.mod_name)
         write_tag(data, END_TAG)
